@@ -17,6 +17,7 @@ import hashlib
 import json
 import os
 import random
+import re
 import sys
 import time
 import traceback
@@ -111,6 +112,9 @@ def respell(sql: str, mode: str) -> str:
                 j += 1
             out.append(sql[i:j + 1])
             i = j + 1
+        elif c == "%" and (m := re.match(r"%(?:\([^)]*\))?[sd%]", sql[i:])):
+            out.append(m.group(0))          # a pyformat placeholder is neither a keyword nor an identifier
+            i += len(m.group(0))
         elif sql.startswith("$$", i):
             j = sql.find("$$", i + 2)
             j = n if j < 0 else j + 2
